@@ -433,7 +433,7 @@ IP1, IP2 = ip_address('192.168.0.1'), ip_address('192.168.0.2')
 
 
 def conf_dict(dh_ike=('ecp256',), child_dh=(), mode='transport', ipsec_proto='esp', encr=('aes256', 'aes128'), lifetime=5,
-              dpd=60, ike_lifetime=900, extra_protect=False, dh_ike_b=None, child_dh_b=None):
+              dpd=60, ike_lifetime=900, extra_protect=False, dh_ike_b=None, child_dh_b=None, ike_encr=None):
     def protect(index, peer_port, cdh=child_dh):
         p = {'index': index, 'ip_proto': 'tcp', 'mode': mode, 'lifetime': lifetime, 'peer_port': peer_port,
              'ipsec_proto': ipsec_proto, 'encr': list(encr)}
@@ -450,6 +450,9 @@ def conf_dict(dh_ike=('ecp256',), child_dh=(), mode='transport', ipsec_proto='es
                 'dh': list(dh_ike_b or dh_ike), 'integ': ['sha256'], 'prf': ['sha256'], 'dpd': dpd, 'lifetime': ike_lifetime,
                 'protect': [protect(2, 23, child_dh_b if child_dh_b is not None else child_dh)]},
     }
+    if ike_encr:
+        d['alice']['encr'] = list(ike_encr)
+        d['bob']['encr'] = list(ike_encr)
     if extra_protect:
         d['alice']['protect'].append({'index': 3, 'ip_proto': 'udp', 'mode': mode, 'lifetime': lifetime, 'peer_port': 0,
                                       'ipsec_proto': ipsec_proto, 'encr': list(encr)})
